@@ -319,7 +319,11 @@ def _run_los(ctx, n):
 
 # ------------------------------------------------------------------------------------------------ NFT (class T, model-free)
 def _gen_nft(rng):
-    kind = rng.choice(["Nufft", "Nufft", "Gridder", "VarPos"])
+    kind = rng.choice(["Nufft", "Nufft", "Gridder", "VarPos", "ShiftedFFT"])
+    if kind == "ShiftedFFT":
+        shape = [rng.randint(1, 5) for _ in range(rng.choice([1, 1, 2]))]
+        return dict(cls=kind, shape=shape, dist=[rng.choice([0.1, 0.5, 1.0, 2.0]) for _ in shape], pos=[],
+                    eps=rng.choice([1e-6, 1e-9]), seed=rng.randrange(1 << 30), pre=rng.choice([0, 0, 2]))
     if kind == "Gridder":
         shape = [rng.choice([2, 4, 6]), rng.choice([2, 4, 6])]
     else:
@@ -389,6 +393,34 @@ def nft_oracle(case):
             if np.abs(gota - wanta).max() > 100 * eps * np.abs(yv).sum() + 1e-11:
                 return (f"Gridder.adjoint_times differs from the explicit Fourier sum by {np.abs(gota - wanta).max():.3g}",
                         sig("fourier-sum-adjoint"))
+        elif kind == "ShiftedFFT":
+            from nifty.cl.library.nft import ShiftedPositionFFT
+            npre = case.get("pre", 0)
+            pre = ift.UnstructuredDomain(npre) if npre else None
+            op = ShiftedPositionFFT(dom, eps, pre)
+            lead = (npre,) if npre else ()
+            g = rs.randint(-3, 4, lead + tuple(shape)) + 1j * rs.randint(-3, 4, lead + tuple(shape))
+            # the shifts live on (codomain, ndim) and are shared by all entries of pre_domain
+            delta = rs.randint(-1, 3, op.domain["delta_coord"].shape).astype(np.float64)
+            x = ift.MultiField.from_dict({"grid": ift.makeField(op.domain["grid"], g.astype(np.complex128)),
+                                          "delta_coord": ift.makeField(op.domain["delta_coord"], delta)}, domain=op.domain)
+            got = op(x).asnumpy()
+            # documented: delta = 0 is the FFT on the standard grid, an integer delta samples the neighbouring FFT frequencies
+            want = np.zeros(lead + tuple(shape), dtype=np.complex128)
+            for t in (range(npre) if npre else [None]):
+                gt = g if t is None else g[t]
+                F = np.fft.fftn(gt) * dom.scalar_dvol
+                for k in np.ndindex(*shape):
+                    dk = delta[k]
+                    src = tuple(int(kk + d) % n for kk, d, n in zip(k, dk, shape))
+                    if t is None:
+                        want[k] = F[src]
+                    else:
+                        want[(t,) + k] = F[src]
+            tol = 100 * eps * np.abs(g).sum() * dom.scalar_dvol + 1e-11
+            if np.abs(got - want).max() > tol:
+                return (f"ShiftedPositionFFT with integer shifts differs from the (rolled) FFT by {np.abs(got - want).max():.3g} "
+                        f"(tol {tol:.3g})", sig("shifted-fft"))
         else:
             from nifty.cl.library.nft import VariablePositionNufft
             op = VariablePositionNufft(dom, len(pos), eps)
@@ -476,7 +508,7 @@ def oracle(case):
     cls = case.get("cls")
     if cls == "LOSResponse":
         return los_oracle(case)
-    if cls in ("Nufft", "Gridder", "VarPos"):
+    if cls in ("Nufft", "Gridder", "VarPos", "ShiftedFFT"):
         return nft_oracle(case)
     if cls == "SamplingCartesianGridLOS":
         return sampling_oracle(case)
